@@ -56,7 +56,8 @@ class Variables:
         self._variables[name] = value
 
     def _unset(self, name: str) -> None:
-        self._variables.pop(name)
+        # unsetting a variable that isn't set is not an error
+        self._variables.pop(name, None)
 
     def inline_variables(self, sql: str) -> str:
         for name, value in self._variables.items():
